@@ -16,24 +16,26 @@ TRUST = ("Lean 4.33 kernel; axioms at most propext/Classical.choice/Quot.sound (
          "net effect 'fold p receives its elements in processing order, cut by the computed batch sizes') tied to the C++ by the differential "
          "correspondence only; ")
 MANIFEST = dict(
-  text=("Theorems (Props/C12.lean, 14 obligations, re-proved on every run against the regenerated batch arithmetic) for all partition-size vectors, "
-        "maximum batch sizes and fold counts: the machine-translated batchPartitioning returns the prefix sums of the per-partition batch counts as "
-        "fold starts, the concatenated per-partition batch sizes (each block summing to its partition size) and the total batch count -- "
-        "unconditionally when every partition is non-empty, and for empty folds/classes under the explicit hypothesis that the source returns no "
-        "batch for zero elements (false on the unrepaired source: finding F1); CVFolds built from such starts have validation batch sets that "
-        "are consecutive ranges, pairwise disjoint and covering all batches; training indices are exactly the complement (membership, no "
-        "duplicates, validation ++ training is a permutation of all batch indices); equal-size fold sizes floor(n/k)(+1) are defined for k>0, "
-        "sum to n and differ by at most one; the reorganised dataset keeps its shapes (model of the repaired code, finding F11). The model is tied "
-        "to createCVIndexed / createCVFullyIndexed / createCVIID / createCVSameSize / createCVSameSizeBalanced / createCVBatch by an exact "
-        "correspondence in which the RNG draws of the real code are observed and checked against the model's relation (permutation / class-wise "
-        "dealing order / fold draw), on unsigned / RealVector / CompressedRealVector inputs under ASan/UBSan, thorough tier exhaustive over "
-        "(n, k, batch size) for n <= 24, plus an independent in-harness oracle for disjointness, cover, complement, pairing, fold-size and class "
-        "balance, requested fold, recreation indices and shape."),
-  note=TRUST + "checked by correspondence + oracle only (no theorem yet): element-level partition of the folds ('every element exactly once with its "
-       "label', requested fold) for the model's regroup function, per-class balance of the round-robin dealing, and that the dealing loop fills every "
-       "batch exactly (the model describes the loop by its net effect); the RNG itself is not modelled. Findings F1, F11, F12 "
-       "(findings_proposed/C12.md) make the check print VIOLATION on the unrepaired tree.",
-  technique="Lean 4 proofs over the regenerated batch arithmetic and the fold index sets + differential correspondence with observed RNG draws (ASan/UBSan)",
+  text=("Theorems (Props/C12.lean, re-proved on every run against the regenerated batch arithmetic) for all partition-size vectors, maximum batch "
+        "sizes, fold counts, index vectors and RNG draws: the machine-translated batchPartitioning returns the prefix sums of the per-partition batch "
+        "counts as fold starts and the concatenated per-partition batch sizes (each block summing to its partition size) -- unconditionally when every "
+        "partition is non-empty, and for empty folds/classes under the explicit hypothesis that the source returns no batch for zero elements (false on "
+        "the unrepaired source: finding F1); CVFolds built from such starts have validation batch sets that are consecutive ranges, pairwise disjoint "
+        "and covering all batches; the validation parts concatenated are exactly the reorganised dataset; training indices are exactly the complement, "
+        "and validation + training elements are a permutation of the dataset; equal-size fold sizes floor(n/k)(+1) sum to n, differ by at most one and "
+        "equal what round-robin dealing delivers; a class dealt round-robin gives any two folds counts that differ by at most one; for the common tail "
+        "of createCVIndexed / createCVFullyIndexed / createCVIID / createCVSameSizeBalanced (model `regroup`): the reorganised dataset is well-formed, "
+        "keeps its shapes (repaired code, finding F11), is the picked elements grouped by requested fold (a permutation: each exactly once with its "
+        "label), and folds.validation(p) holds exactly the elements assigned to fold p; createCVIndexed yields a permutation of the original pairs; "
+        "createCVSameSize, for every permutation the shuffle may draw, yields a well-formed permutation of the original pairs in exactly the computed "
+        "batch layout with disjoint covering folds. The model is tied to the six fold-construction functions by an exact correspondence in which the "
+        "RNG draws of the real code are observed and checked against the model's relation, on unsigned / RealVector / CompressedRealVector inputs under "
+        "ASan/UBSan (thorough tier exhaustive over (n, k, batch size) for n <= 24), plus an independent in-harness oracle for disjointness, cover, "
+        "complement, pairing, fold-size and class balance, requested fold, recreation indices and shape."),
+  note=TRUST + "checked by correspondence + oracle only (no theorem): that the class-wise dealing order of createCVSameSizeBalanced really is class-contiguous "
+       "(validSeq is checked on the observed order), createCVBatch's chunking, and that the element-dealing loops equal their net effect `regroup`; the RNG "
+       "itself is not modelled. Findings F1, F11, F12 (findings_proposed/C12.md) make the check print VIOLATION on the unrepaired tree.",
+  technique="Lean 4 proofs over the regenerated batch arithmetic, the fold index sets and the regrouping + differential correspondence with observed RNG draws (ASan/UBSan)",
   design="§6 C12")
 
 FINISH = dict(level="proof",
